@@ -43,7 +43,7 @@ def private_interp(ck):
     """a private copy of the extracted interpreter (another check may rebuild the shared binary while we run)"""
     import export
     src = common.COQ / "Core" / "_build" / "interp"
-    dst_dir = common.SCRATCH / "c02"
+    dst_dir = common.SCRATCH / "c02" / ("run%d" % os.getpid())
     dst_dir.mkdir(parents=True, exist_ok=True)
     dst = dst_dir / "interp"
     for attempt in range(6):
@@ -104,48 +104,58 @@ def run(ck: common.Check):
 
     # ------------------------------------------------------------------ 2. correspondence
     import c02_corr as C
-    work = common.scratch_dir("c02_corr")
+    work = common.scratch_dir("c02_corr_%d" % os.getpid())  # private: concurrent runs must not delete each other's shards
     cs = C.Cases(ck, ck.rng)
     n = ck.n
     try:
-        cs.simplify(n(500, 4000))
-        cs.comp(n(400, 3000))
-        cs.lift(n(150, 1000))
-        cs.access(n(250, 2000))
-        cs.window(n(250, 2000))
-        cs.value(n(350, 3000))
+        cs.simplify(n(300, 4000))
+        cs.comp(n(250, 3000))
+        cs.lift(n(100, 1000))
+        cs.access(n(150, 2000))
+        cs.window(n(150, 2000))
+        cs.names(n(150, 2000))
+        cs.value(n(250, 3000))
     except Exception as e:  # e.g. a mutated implementation raising something unexpected
         ck.broken_obligation("correspondence:real-side-crash", "%s: %s" % (type(e).__name__, e))
     value_lines = C.run_values(ck, cs, work)
+    shards = None
     if model_ok:
-        C.run_shards(ck, cs.lines + value_lines, work)
+        # evaluated by coqc processes in the background while the search below runs; collected after it
+        shards = C.start_shards(cs.lines + value_lines, work, parallel=n(3, 6))
     else:
         ck.broken_obligation("correspondence:model-unavailable", "coq/Backend did not build; shards not evaluated")
-    for st, d in sorted(ck.streams.items()):
-        ck.log("stream %-22s cases %5d agree %5d diverge %d" % (st, d["cases"], d["agree"], d["diverge"]))
     t_corr = time.time() - t_start
 
     # ------------------------------------------------------------------ 3. main search: C vs reference semantics
     import c02_search as S
     import c02_gen as G
     if not private_interp(ck):
+        if shards is not None:
+            C.finish_shards(ck, shards)
         return
     workers = int(os.environ.get("C02_WORKERS", "10"))
     remaining = budget - (time.time() - t_start) - (45 if not ck.thorough else 120)
     # when a proof or a correspondence stream is broken the search is what produces the failing input: give it time
-    deadline = time.time() + max(remaining, 150 if ck.broken else 45)
+    deadline = time.time() + max(remaining, 150 if ck.broken else 75)
     n_inputs = n(3, 5)
-    jobs = []
+    corpus_jobs, gen_jobs = [], []
     uid = 0
     for name, body in S.CORPUS.items():
-        jobs.append((uid, ck.rng.randrange(1 << 30), {"label": "corpus:" + name, "source": G.HEADER + body, "n_inputs": n(4, 6),
-                                                      "n_sched": 0, "annotate": False, "also_O0": 1.0, "deadline": None}))
+        corpus_jobs.append((uid, ck.rng.randrange(1 << 30), {"label": "corpus:" + name, "source": G.HEADER + body, "n_inputs": n(3, 6),
+                                                             "n_sched": 0, "annotate": False, "also_O0": n(0.3, 1.0), "deadline": None}))
         uid += 1
-    n_units = n(16, 2000)
+    n_units = n(14, 2000)
     for k in range(n_units):
-        jobs.append((uid, ck.rng.randrange(1 << 30), {"label": "gen", "n_inputs": n_inputs, "n_sched": n(1, 2), "also_O0": 0.25,
-                                                      "deadline": deadline, "unit_budget": 90}))
+        gen_jobs.append((uid, ck.rng.randrange(1 << 30), {"label": "gen", "n_inputs": n_inputs, "n_sched": n(1, 2), "also_O0": 0.25,
+                                                          "deadline": deadline, "unit_budget": 90}))
         uid += 1
+    # interleave so that corpus and generated programs both make progress before the deadline
+    jobs = []
+    for k in range(max(len(corpus_jobs), len(gen_jobs))):
+        if k < len(corpus_jobs):
+            jobs.append(corpus_jobs[k])
+        if k < len(gen_jobs):
+            jobs.append(gen_jobs[k])
     results = S.run_units(jobs, workers=workers, deadline=deadline)
     labels = {j[0]: j[2]["label"] for j in jobs}
 
@@ -227,6 +237,11 @@ def run(ck: common.Check):
                     stats["skipped_inputs"][k2] = stats["skipped_inputs"].get(k2, 0) + c
                 if lab.startswith("corpus:"):
                     ck.broken_obligation("corpus:" + lab, "no valid input found for a corpus program: %s" % v.get("skipped"))
+    if shards is not None:
+        C.finish_shards(ck, shards)
+    for st, d in sorted(ck.streams.items()):
+        if st not in ("cexec", "cexec-frontend-rejected"):
+            ck.log("stream %-22s cases %5d agree %5d diverge %d" % (st, d["cases"], d["agree"], d["diverge"]))
     ck.cov["c_build_failures_deferred_to_C15"] = deferred
     ck.cov["search"] = stats
     ck.log("search: %d/%d units, %d programs compiled+run, %d inputs agree, variants %s, deferred build failures %s"
@@ -276,4 +291,6 @@ def run(ck: common.Check):
         "in coverage.c_build_failures_deferred_to_C15; any other build failure is a violation",
     ]
     # Print Assumptions of every theorem is part of Props_C02.v; coq_build has collected it from the build log
-    ck.log("timing: build+correspondence %.0fs, total %.0fs" % (t_corr, time.time() - t_start))
+    shutil.rmtree(common.SCRATCH / "c02" / ("run%d" % os.getpid()), ignore_errors=True)
+    shutil.rmtree(work, ignore_errors=True)
+    ck.log("timing: build + real side of the correspondence %.0fs, total %.0fs" % (t_corr, time.time() - t_start))
